@@ -33,8 +33,18 @@ def main():
         if a.returncode != 0:
             meta["apply_error"] = a.stderr[-500:]
             return meta
-        t = sh(f"cd {wt} && {PYT} -m pytest -q -p no:cacheprovider --timeout=900 -q 2>&1 | grep -c '^FAILED'")
-        meta["tests_failed_with_patch"] = int((t.stdout.strip() or "0").splitlines()[-1])
+        prev = None
+        try:
+            prev = json.load(open(f"/verif/seeded/{pid}/{name}/meta.json"))
+        except Exception:
+            pass
+        if os.environ.get("VF_REUSE_CONFIRMATION") and prev and prev.get("confirmed") and prev.get("tests_failed_with_patch") == 9:
+            # the test-suite run of an earlier evaluation of the same patch is reused; the demo is re-run below
+            meta["tests_failed_with_patch"] = 9
+            meta["tests_reused_from"] = prev.get("at")
+        else:
+            t = sh(f"cd {wt} && {PYT} -m pytest -q -p no:cacheprovider --timeout=900 -q 2>&1 | grep -c '^FAILED'")
+            meta["tests_failed_with_patch"] = int((t.stdout.strip() or "0").splitlines()[-1])
         r1 = sh(f"cd {wt} && PYTHONPATH={wt} {PYT} {demo}")
         meta["demo_with_patch"] = dict(exit=r1.returncode, tail=(r1.stdout + r1.stderr)[-400:])
         meta["confirmed"] = (r0.returncode == 0 and r1.returncode != 0 and meta["tests_failed_with_patch"] == 9)
